@@ -6,7 +6,8 @@ A case is JSON-serialisable (replay never needs the PRNG):
    "records": [{"chrom", "pos" (1-based), "ref", "alts": [..], "format": [keys], "calls": [[values]]}],
    "only_snvs": bool, "chromosomes": [args of --chromosome] , "sample": name|None,
    "indexed": bool (the file is bgzipped + tabix-indexed before the run: `parse_variant_tables` then fetches the given
-   chromosomes in the given order), "chr_lengths": None | [[name, length], ...] (lines of the --chr-lengths file),
+   chromosomes in the given order), "storage": "plain" | "bgzip" (compressed, no index: the file is iterated) | "tbi" | "csi"
+   (absent in older cases: "tbi" if indexed else "plain"), "chr_lengths": None | [[name, length], ...] (lines of the --chr-lengths file),
    "kinds": {chrom: "PS"|"HP"} (phasing encoding per chromosome; "kind" = the file-level summary)}
 A contig length of None is a `##contig` line without length.
 """
@@ -92,9 +93,26 @@ def gen_call(rng, case_kind, ploidy, n_alt, sets, has_ps_key, exotic, pos, dense
     return [gt, str(ps) if phased else "."]
 
 
-def gen_case(rng, scale=1, exotic=True):
+def boundary_positions(rng, ln):
+    """a non-empty selection of the positions at the edges of a contig of declared length `ln`: its first two bases, its last
+    two, and the first position past the declared end (htslib reads, compresses, indexes and fetches such a record without
+    complaint; a contig's declared length is not enforced)"""
+    edge = [1, 2, ln - 1, ln, ln + 1]
+    pick = {p for p in edge if p >= 1 and rng.random() < 0.5}
+    if rng.random() < 0.6:
+        pick.add(1)                      # the very first base: 0-based start 0
+    if not pick:
+        pick.add(rng.choice([1, ln]))
+    return sorted(pick)
+
+
+def gen_case(rng, scale=1, exotic=True, boundary=False):
+    """`boundary`: every chromosome is likely to have records at the edges of the contig (see boundary_positions), short contigs
+    (1-6 bases, where every position is an edge) occur, and the file is more often compressed / indexed and queried with
+    --chromosome; without it the same things happen at a lower rate"""
     n_contigs = rng.choice([1, 2, 2, 3, 3, 4])
-    contigs = {f"chr{i + 1}": rng.randrange(3000, 20000) for i in range(n_contigs)}
+    contigs = {f"chr{i + 1}": (rng.randrange(1, 7) if rng.random() < (0.2 if boundary else 0.04) else rng.randrange(3000, 20000))
+               for i in range(n_contigs)}
     samples = [f"S{i + 1}" for i in range(rng.choice([1, 1, 2, 3]))]
     ploidy = rng.choice([2, 2, 2, 3, 4] + ([1, 5, 6] if exotic else []))
     kind = rng.choice(["PS", "PS", "HP"])
@@ -109,13 +127,20 @@ def gen_case(rng, scale=1, exotic=True):
     for chrom, ln in contigs.items():
         dense = rng.random() < 0.35          # many heterozygous phased calls in few interleaved sets: lots of splitting
         n = (rng.choice([10, 16, 24]) if dense else rng.choice([0, 1, 3, 6, 10, 16, 24])) * scale
-        positions = sorted(rng.randrange(1, ln) for _ in range(n))
+        positions = [rng.randrange(1, ln + 1) for _ in range(n)]
+        if rng.random() < (0.75 if boundary else 0.15):
+            # records at the edges of the contig (in place of random ones, so that the number of records stays as drawn; a
+            # chromosome drawn empty gets them all the same)
+            edge = boundary_positions(rng, ln)
+            positions = edge + positions[len(edge):]
+        positions.sort()
+        n = len(positions)
         if n >= 3 and rng.random() < 0.3:      # duplicated position
             i = rng.randrange(1, n); positions[i] = positions[i - 1]
         if unsorted_file and n >= 3:
             i = rng.randrange(1, n); positions[i - 1], positions[i] = positions[i] + 5, positions[i - 1]
         # phase sets of this chromosome (per sample), ids are arbitrary positive numbers; few sets => interleaving/nesting
-        sets = {s: [rng.randrange(1, ln) for _ in range(rng.choice([2, 3, 4] if dense else [0, 1, 2, 3, 4]))] for s in samples}
+        sets = {s: [rng.randrange(1, ln + 1) for _ in range(rng.choice([2, 3, 4] if dense else [0, 1, 2, 3, 4]))] for s in samples}
         if not dense and rng.random() < 0.25:                # contiguous (non-interleaved) sets for one stretch
             contiguous = True
         else:
@@ -136,7 +161,7 @@ def gen_case(rng, scale=1, exotic=True):
                 calls = [c + [str(rng.randrange(1, 60))] for c in calls]
             records.append({"chrom": chrom, "pos": pos, "ref": ref, "alts": alts, "format": fmt, "calls": calls})
     chroms = []
-    if rng.random() < 0.4:
+    if rng.random() < (0.6 if boundary else 0.4):
         names = list(contigs)
         k = rng.randrange(1, len(names) + 1)
         pick = rng.sample(names, k)
@@ -165,7 +190,14 @@ def gen_case(rng, scale=1, exotic=True):
         if exotic and chr_lengths and rng.random() < 0.3:
             chr_lengths.append([chr_lengths[0][0], rng.choice([1, 700, 40000])])
         rng.shuffle(chr_lengths)
+    # how the file is given: plain text, bgzip-compressed without an index (iterated, like plain text), or compressed with a
+    # tabix (.tbi) or CSI (.csi) index (with --chromosome the requested chromosomes are then fetched through the index)
+    indexed = (not unsorted_file) and rng.random() < ((0.65 if boundary else 0.55) if chroms else 0.3)
+    if indexed:
+        storage = rng.choice(["tbi", "tbi", "csi"])
+    else:
+        storage = "bgzip" if rng.random() < 0.25 else "plain"
     return {"contigs": contigs, "samples": samples, "ploidy": ploidy, "kind": kind, "kinds": kinds, "records": records,
             "only_snvs": rng.random() < 0.3, "chromosomes": chroms,
-            "sample": rng.choice(samples) if rng.random() < 0.3 else None, "exotic": exotic,
-            "indexed": (not unsorted_file) and rng.random() < (0.55 if chroms else 0.3), "chr_lengths": chr_lengths}
+            "sample": rng.choice(samples) if rng.random() < 0.3 else None, "exotic": exotic, "boundary": boundary,
+            "indexed": indexed, "storage": storage, "chr_lengths": chr_lengths}
